@@ -64,9 +64,10 @@ def run(ctx):
     rng = np.random.default_rng(ctx.seed)
     # cases in which the model says the beam can miss the optimum are the interesting ones: keep all of them
     miss = [k_ for k_ in keys if groups[k_]['r'] <= 0 and any(max(abs(v) for v in [groups[k_]['full'][_flat(groups[k_]['n'], t)] for t in cs]) < groups[k_]['maxabs'] for cs in groups[k_]['cands'])]
-    if quick:
-        rest = [k_ for k_ in keys if k_ not in set(miss)]
-        keys = [rest[j] for j in rng.permutation(len(rest))[:2500]] + [miss[j] for j in rng.permutation(len(miss))[:1500]]
+    missset = set(miss)
+    rest = [k_ for k_ in keys if k_ not in missset]
+    nrest, nmiss = (2500, 1500) if quick else (25000, 15000)
+    keys = [rest[j] for j in rng.permutation(len(rest))[:nrest]] + [miss[j] for j in rng.permutation(len(miss))[:nmiss]]
     ctx.notes['cases_where_the_model_beam_misses_the_optimum'] = len(miss)
     # right-to-left: the same model on the reversed tensor; collect its outcomes lazily from the same table
     table = {json.dumps([g['cores'], g['k']]): g for g in groups.values()}
